@@ -145,8 +145,16 @@ def canon(x, depth=0):
         return ("histogram", canon(x.edges, depth + 1), canon(x.bins, depth + 1),
                 x.n_out_of_range)
     if isinstance(x, lena.structures.Graph):
-        pts = canon(list(x._points), depth + 1)
-        return ("Graph", pts, canon(x._scale), x._sort)
+        # public interface only: the points property and scale()
+        try:
+            pts = canon(list(x.points), depth + 1)
+        except Exception as e:  # noqa: BLE001
+            pts = ("points-raise", type(e).__name__)
+        try:
+            sc_ = x.scale()
+        except Exception:  # noqa: BLE001
+            sc_ = None
+        return ("Graph", pts, canon(sc_))
     if isinstance(x, tuple):
         return ("t",) + tuple(canon(y, depth + 1) for y in x)
     if isinstance(x, list):
